@@ -13,12 +13,14 @@ LEVEL_TEXT = ("TLC explores OptParse.tla - the ideal reading of a command line a
               "other pass untouched, non-option words untouched in order, strictly advancing cursor, compaction = filter). Every "
               "behaviour TLC generates (expected targets, argv, bad count, flags per pass) is then executed on spifopt_parse in an "
               "ASan build of the current tree (fresh exact-size heap argv, guarded targets, CPU watchdog) and compared.")
-LEVEL_NOTE = ("Bounded scope: argv length <= 3 over 18-34 tokens (quick), <= 4 over 12 tokens plus <= 3 over the full alphabet "
-              "(thorough); 2 tables. Points DESIGN.md 8a marks E are accepted either way (boolean word after a short boolean, lone "
-              "'-'/'--', whether unknown-option words stay in argv, exact count of a missing value, counter options counted or "
-              "not); spellings marked X end the comparison and are run for termination and memory safety only. Heap balance is "
-              "not judged when a string/list option is given twice (the overwritten value is the program's). Case-insensitive "
-              "matching and spifopt_usage output are not covered. Trusted: TLC, harness/opt_replay.c, ASan.")
+LEVEL_NOTE = ("Bounded scope: all argv of <= 3 words over 15 tokens and <= 2 words over the full 34-token alphabet (quick); <= 4 words "
+              "over 11 tokens and <= 3 words over all 34 (thorough); 2 option tables x 4 settings; beyond the bound only seeded "
+              "samples of 4-8 words (TLC computes their expectation too). Points DESIGN.md 8a marks E are accepted either way "
+              "(boolean word after a short boolean, lone '-' / bare '--', whether unknown-option words stay in argv, exact count "
+              "for a missing value); spellings marked X end the comparison and are run for termination and memory safety only. "
+              "Heap balance is not judged when a string/list option is given twice (the overwritten value is the program's) nor "
+              "on X lines. Case-insensitive matching, spifopt_usage output and the bad-option limit (which exits) are not "
+              "covered. Trusted: TLC, harness/opt_replay.c, the comparison in checks/c08.py, ASan.")
 TECHNIQUE = "TLA+ spec + TLC exhaustive enumeration of behaviours replayed on the implementation"
 DESIGN_REF = "DESIGN.md section 6 C08, 8a Options"
 
@@ -105,6 +107,8 @@ def compare(hdr, b, pi, got):
     sf = sum(SETBITS[s] for s in e["sf"])
     if got["sf"] != sf:
         out.append(("value", "settings", str(sf), str(got["sf"])))
+    if got["help"]:
+        out.append(("value", "helpcalls", "0", str(got["help"])))
     if not got["term"]:
         out.append(("value", "argv", "NULL-terminated", "no NULL within argc"))
     elif not match_argv(b["argv"], e["keep"], got["argv"]):
@@ -161,7 +165,22 @@ def run_cfg(ctx, exe, cfg, state, module="MC_OptParse.tla", specdir=None, vacuit
         texts.append(script_text(len(todo), b))
     del raw
     jobs = min(4, int(os.environ.get("VERIF_JOBS", "4")))
-    fails, recs, ns, nt = run_scripts(exe, [tables], texts, ctx.rundir, jobs=jobs, env={"VH_WATCHDOG": "30"}, tag="opt")
+    fails, recs, ns, nt = [], [], 0, 0
+    CH = 4000
+    for c0 in range(0, len(texts), CH):
+        f_, r_, ns_, nt_ = run_scripts(exe, [tables], texts[c0:c0 + CH], ctx.rundir, jobs=jobs, env={"VH_WATCHDOG": "30"}, tag="opt")
+        fails += f_
+        recs += r_
+        ns += ns_
+        nt += nt_
+        nhard = sum(1 for f in fails if f.kind in ("crash", "hang", "exit")) + sum(1 for r in r_ if ",hang=T," in r[3])
+        state["hard"] = state.get("hard", 0) + nhard
+        if state["hard"] > 400 and c0 + CH < len(texts):
+            ctx.notes.append("%s: stopped after %d of %d behaviours: more than 400 crashes/hangs so far" % (cfg, c0 + CH, len(texts)))
+            todo = todo[:c0 + CH]
+            texts = texts[:c0 + CH]
+            state["stopped"] = True
+            break
     ctx.add("traces_validated_against_impl", ns)
     ctx.add("evaluations", nt)
     by = {}
@@ -239,19 +258,41 @@ def long_vectors(ctx, exe, state):
     os.makedirs(d, exist_ok=True)
     for f in ("OptParse.tla", "MC_OptParse.tla"):
         shutil.copy(os.path.join(SPEC, f), d)
-    with open(os.path.join(d, "MC_OptParseLong.tla"), "w") as f:
-        f.write("---- MODULE MC_OptParseLong ----\nEXTENDS MC_OptParse\nSampled == {\n")
-        f.write(",\n".join("<<%s>>" % ", ".join(str(t) for t in v) for v in sorted(vecs)))
-        f.write("\n}\nArgvsSampled(t) == Sampled\n====\n")
     cfg = open(os.path.join(SPEC, "OptParse_quick.cfg")).read()
     cfg = cfg.replace("TokSets <- TokCore", "TokSets <- TokFull").replace("MaxArgs = 3", "MaxArgs = %d" % hi)
     cfg = cfg.replace("Argvs <- ArgvsBounded", "Argvs <- ArgvsSampled")
     if "ArgvsSampled" not in cfg or "TokFull" not in cfg:
         raise Broken("cannot derive the sampled-vector cfg from OptParse_quick.cfg")
-    with open(os.path.join(d, "OptParse_long.cfg"), "w") as f:
-        f.write(cfg)
-    run_cfg(ctx, exe, "OptParse_long.cfg", state, module="MC_OptParseLong.tla", specdir=d, vacuity=False)
+
+    def run_vectors(vs, tag):
+        with open(os.path.join(d, "MC_OptParseLong.tla"), "w") as f:
+            f.write("---- MODULE MC_OptParseLong ----\nEXTENDS MC_OptParse\nSampled == {\n")
+            f.write(",\n".join("<<%s>>" % ", ".join(str(t) for t in v) for v in sorted(vs)))
+            f.write("\n}\nArgvsSampled(t) == Sampled\n====\n")
+        name = "OptParse_%s.cfg" % tag
+        with open(os.path.join(d, name), "w") as f:
+            f.write(cfg)
+        run_cfg(ctx, exe, name, state, module="MC_OptParseLong.tla", specdir=d, vacuity=False)
+
+    run_vectors(vecs, "long")
     ctx.add("sampled_long_vectors", len(vecs))
+    # failing sampled vectors are reduced the same way as the others: their sub-vectors are explored too (TLC computes
+    # the expectation of each), round by round, until every failing vector has all its one-word deletions explored
+    index = {tuple(w): k + 1 for k, w in enumerate(state["hdr"]["toktext"])}
+    for rnd_no in range(hi):
+        cands = set()
+        for key in list(state["verdicts"]):
+            (tbn, st, av) = key
+            if len(av) <= 1 or all(minimise(state["verdicts"], key, v) != key for v in state["verdicts"][key][0]):
+                continue        # already explained by a shorter explored vector
+            for k in range(len(av)):
+                sub = av[:k] + av[k + 1:]
+                if (tbn, st, sub) not in state["seen"]:
+                    cands.add(tuple(index[w] for w in sub))
+        if not cands:
+            break
+        run_vectors(cands, "reduce%d" % rnd_no)
+        ctx.add("reduction_vectors", len(cands))
 
 
 def has_mismatch(verdicts, key, v):
@@ -260,29 +301,29 @@ def has_mismatch(verdicts, key, v):
 
 
 def minimise(verdicts, key, v):
-    """Drop words while the shorter vector (same table and settings, also explored) shows the same mismatch."""
-    cur = key
-    changed = True
-    while changed:
-        changed = False
-        tbn, st, av = cur
-        for k in range(len(av)):
-            cand = (tbn, st, av[:k] + av[k + 1:])
+    """The shortest explored sub-vector (words dropped, order kept, same table and settings) that shows the same
+    mismatch; ties broken by position.  The vector itself if none is shorter."""
+    import itertools
+    tbn, st, av = key
+    n = len(av)
+    for ln in range(0, n):
+        for idx in itertools.combinations(range(n), ln):
+            cand = (tbn, st, tuple(av[k] for k in idx))
             if has_mismatch(verdicts, cand, v):
-                cur = cand
-                changed = True
-                break
-    return cur
+                return cand
+    return key
 
 
 def run(ctx):
     exe = harness(ctx)
     state = {"seen": set(), "verdicts": {}, "taken": {}}
     for cfg in CFGS[ctx.tier]:
-        state["hdr"] = run_cfg(ctx, exe, cfg, state)
-    long_vectors(ctx, exe, state)
+        if not state.get("stopped"):
+            state["hdr"] = run_cfg(ctx, exe, cfg, state)
+    if not state.get("stopped"):
+        long_vectors(ctx, exe, state)
     unt = sorted(a for a, n in state["taken"].items() if n == 0)
-    if unt or len(state["taken"]) < 20:
+    if (unt or len(state["taken"]) < 20) and not state.get("stopped"):
         raise Broken("vacuity: actions never taken in any scope of this tier: %s (%d actions seen)" % (unt, len(state["taken"])))
     verdicts = state["verdicts"]
     byf = {}        # finding key -> {minimal vector key: number of explored vectors that reduce to it}
